@@ -169,6 +169,17 @@ def negotiation_script(rng, chain):
     write(3, 2)
     write(1)
     nack(5)
+    # the transport fails the chain's OWN feedback for a while (reports, NACKs, PLIs written by the interceptors): the
+    # application's packets still pass, in both directions, while it fails and after it has recovered
+    steps += [{"a": "wait", "ms": 3}, {"a": "failw", "ms": 1}, {"a": "wait", "ms": 5}]
+    for _ in range(3):
+        read()
+    for s in (1, 3, 5):
+        write(s)
+    steps += [{"a": "failw", "ms": 0}, {"a": "wait", "ms": 3}]
+    read()
+    read()
+    write(1)
     steps += [{"a": "wait", "ms": 3}, {"a": "unbindl", "s": 1}, {"a": "unbindl", "s": 3}, {"a": "unbindl", "s": 5},
               {"a": "unbindm", "s": 2}, {"a": "close"}]
     return {"members": members, "steps": steps, "settle": 10}
